@@ -265,6 +265,8 @@ class WebSocket:
         socket: socket
             Pre-initialized stream socket.
         """
+        # a URL that cannot be used is refused before anything else happens
+        parse_url(url)
         self.sock_opt.timeout = options.get("timeout", self.sock_opt.timeout)
         # an earlier connection of this object ends here: its transport is
         # released before the new one is opened, whether or not that succeeds
